@@ -108,7 +108,7 @@ def main():
         engines=[dict(name="rv", path="/verif/rv", serves_properties=[c["property_id"] for c in checks],
                       kind_free_text="Python runtime-monitoring framework: monitors wrapped around the real reamber functions, reference interpreters/models as oracles, sharded seeded workloads, sys.monitoring reach probes, known-finding matching by mechanism")],
         checks=checks,
-        notes="exit codes: 0 held on everything observed, 1 VIOLATION, 2 INCONCLUSIVE (deciding monitor judged nothing / shard watchdog). VERIF_SEED and VERIF_TIER are honoured; VERIF_REPO points the checks at another working tree. Next to inputs and call histories the checks explore process configurations under which the unchanged tree gives the same answers: every fifth case runs under pandas copy-on-write (VERIF_PANDAS_COW_EVERY overrides; 0 = off), every fourth read_file comparison stores the text with a UTF-8 byte order mark and every fourth with CRLF line ends, and C01 / C03 / C06 start one child interpreter under LC_ALL=C with UTF-8 mode off for write_file / read_file.",
+        notes="exit codes: 0 held on everything observed, 1 VIOLATION, 2 INCONCLUSIVE (deciding monitor judged nothing / shard watchdog). VERIF_SEED and VERIF_TIER are honoured; VERIF_REPO points the checks at another working tree. Next to inputs and call histories the checks explore process configurations under which the unchanged tree gives the same answers: every fifth case runs under pandas copy-on-write (VERIF_PANDAS_COW_EVERY overrides; 0 = off), every fourth read_file comparison stores the text with a UTF-8 byte order mark and every fourth with CRLF line ends, and C01 / C03 / C06 start one child interpreter under LC_ALL=C with UTF-8 mode off for write_file / read_file. Every shard also runs an unjudged battery of unrelated public calls (rv/prelude.py: generic list classes, snappers with other divisions, timing maps, one small chart per game, a pattern grouping) before its first case or after five cases, so that state kept at module or class level by earlier calls is in place.",
         not_applicable=na,
     )
     p = os.path.join(HERE, "MANIFEST.json")
